@@ -3,19 +3,25 @@
 // goroutine, so an attempt to lock a mutex that is held can never succeed -
 // it is recorded as a hang (vos.Hung) and the run is aborted with the panic
 // value vos.HangError (the flag survives a recover in the code under test).
-// Outside plan mode (the lock-step suites of C07/C08) it is the real
-// sync.Mutex.
+// In the lock-step suites of C07/C08 (threads of the deterministic scheduler)
+// taking a free mutex is no yield point (it has no effect another process
+// can observe); a thread that finds the mutex held by a parked thread parks
+// as Blocked and re-tests when stepped again, so the harness can run the
+// holder first.  Outside both modes it is the real sync.Mutex.
 package vsyncu
 
 import (
 	"sync"
+	"unsafe"
 
 	"golang.org/x/telemetry/internal/verifh/shim/vos"
+	"golang.org/x/telemetry/internal/verifh/shim/vsched"
 )
 
 type Mutex struct {
-	held bool
-	real sync.Mutex
+	held  bool
+	sched bool // taken by a thread of the deterministic scheduler
+	real  sync.Mutex
 }
 
 func (m *Mutex) Lock() {
@@ -27,6 +33,13 @@ func (m *Mutex) Lock() {
 		m.held = true
 		return
 	}
+	if vsched.Managed() {
+		for m.held {
+			vsched.YieldBlocked("lock", uintptr(unsafe.Pointer(m)))
+		}
+		m.held, m.sched = true, true
+		return
+	}
 	m.real.Lock()
 }
 
@@ -36,6 +49,10 @@ func (m *Mutex) Unlock() {
 			panic("vsyncu: unlock of unlocked mutex")
 		}
 		m.held = false
+		return
+	}
+	if m.sched {
+		m.held, m.sched = false, false
 		return
 	}
 	m.real.Unlock()
